@@ -139,4 +139,27 @@ CHECKS = {
              "reach": {"VerifH_SYS_C17": ["quiescent", "inbound-after-handle"]}},
         ],
     },
+    "C13": {
+        "groups": [
+            {"name": "c13-keepalive", "files": ["h_c13.go"], "harnesses": ["VerifH_C13_KeepAlive"], "concurrent": True,
+             "flags": {"quick": [P(pings=2)], "thorough": [P(pings=3)]},
+             "reach": {"VerifH_C13_KeepAlive": ["returned", "cancelled", "late-answer", "silent", "ping-error"]}},
+            {"name": "c13-keepalive-free", "files": ["h_c13.go"], "harnesses": ["VerifH_C13_KeepAlive"], "concurrent": True, "thorough_only": True,
+             "flags": {"thorough": ["-solver=cvc5", P(pings=1, timeout_lt_interval=0)]},
+             "reach": {"VerifH_C13_KeepAlive": ["returned"]}},
+            {"name": "c13-sys", "files": ["h_sys_c16.go"], "harnesses": ["VerifH_SYS_C16"], "concurrent": True,
+             "flags": {"quick": ["-ticks=6", P(faults=1)], "thorough": ["-ticks=8", P(faults=2)]},
+             "reach": {"VerifH_SYS_C16": ["end", "silent-peer"]}},
+        ],
+    },
+    "C16": {
+        "groups": [
+            {"name": "c16-base", "files": ["h_c16.go"], "harnesses": ["VerifH_C16_Base"], "concurrent": True,
+             "flags": {"quick": ["-delays=1"], "thorough": ["-delays=2"]},
+             "reach": {"VerifH_C16_Base": ["end", "disconnect", "no-disconnect"]}},
+            {"name": "c16-sys", "files": ["h_sys_c16.go"], "harnesses": ["VerifH_SYS_C16"], "concurrent": True,
+             "flags": {"quick": ["-ticks=6", P(faults=1)], "thorough": ["-ticks=8", P(faults=2)]},
+             "reach": {"VerifH_SYS_C16": ["end", "healthy-last", "after-disconnect"]}},
+        ],
+    },
 }
